@@ -13,6 +13,7 @@ from collections import OrderedDict
 
 from chx.instrument import FUEL, FuelExhausted, instrument_fuel
 from chx.ob import BOOL, CP, PR, R, U, ob
+from chx.ob import REPO as _REPO
 from harness.shims import ADHOC_SHIMS_DOC
 from harness.skeletons import EDGE_SKELETONS, SKELETONS
 
@@ -38,7 +39,7 @@ def _unbounded_for_sites():
     """syntactic side condition: no `for` loop mutates the list it iterates, no infinite iterators"""
     bad = []
     files = [m.__file__ for m in MODS] + [
-        "/repo/cdd/shared/docstring_parsers.py", "/repo/cdd/shared/defaults_utils.py", "/repo/cdd/shared/cst_utils.py"]
+        _REPO + "/cdd/shared/docstring_parsers.py", _REPO + "/cdd/shared/defaults_utils.py", _REPO + "/cdd/shared/cst_utils.py"]
     for fn in files:
         tree = ast.parse(open(fn).read())
         for n in ast.walk(tree):
